@@ -4,12 +4,35 @@ import html
 import itertools
 
 
-def forms():
+def forms(x='x'):
     from DocumentTemplate.DT_HTML import HTML
-    return [('&dtml-x;', HTML('&dtml-x;')), ('<dtml-var x html_quote>', HTML('<dtml-var x html_quote>')),
-            ('<dtml-var x html_quote null="">', HTML('<dtml-var x html_quote null="">')),
-            ('<dtml-var x fmt=html-quote>', HTML('<dtml-var x fmt=html-quote>')),
-            ('<!--#var x html_quote-->', HTML('<!--#var x html_quote-->'))]
+    return [(f, HTML(f)) for f in ('&dtml-%s;' % x, '<dtml-var %s html_quote>' % x, '<dtml-var %s html_quote null="">' % x,
+                                   '<dtml-var %s fmt=html-quote>' % x, '<!--#var %s html_quote-->' % x)]
+
+
+def name_search(name):
+    """the forms with another variable name (taken from a solver counter-model): a small value set"""
+    import re
+    from DocumentTemplate.DT_HTML import HTML
+    from DocumentTemplate.DT_String import String
+    if not re.fullmatch(r'[A-Za-z][A-Za-z0-9_]*', name or ''):
+        return 0, None
+    n = 0
+    plains = [(src, cls(src)) for cls, src in ((HTML, '<dtml-var %s>' % name), (HTML, '<dtml-var name="%s">' % name),
+                                               (HTML, '<!--#var %s-->' % name), (String, '%%(%s)s' % name))]
+    for v in ('a<b', 'x&y', '"q"', "it's", 'plain', ''):
+        want = html.escape(v, 1)
+        for src, t in forms(name):
+            n += 1
+            out = t(**{name: v})
+            if out != want:
+                return n, dict(source=src, value=repr(v), output=repr(out), expected=repr(want))
+        for src, t in plains:
+            n += 1
+            out = t(**{name: v})
+            if out != v:
+                return n, dict(source=src, value=repr(v), output=repr(out), expected=repr(v), what='plain insertion altered an ordinary string')
+    return n, None
 
 
 def search(big=False):
@@ -60,7 +83,13 @@ def search(big=False):
 
 
 def native_for(oid, model):
-    n, fail = search()
+    n, fail = 0, None
+    nm = (model or {}).get('varname')
+    if isinstance(nm, str):
+        n, fail = name_search(nm.strip('"'))
+    if not fail:
+        k, fail = search()
+        n += k
     if fail:
         return dict(holds=False, inputs=fail, observed='inserted text differs from html.escape(value, quote=True)', cases_tried=n)
     return dict(holds=True, cases_tried=n, note='bounded native search found no failing input')
